@@ -107,6 +107,7 @@ type Job struct {
 
 	mbMu    sync.Mutex
 	mbCount map[string]int
+	mbRefund map[string]int
 
 	NoNative bool            // harness cannot be replayed in-process (it runs main()); its obligations are evaluated and replayed by the property's Post hook
 	cutSet   map[string]bool // functions observed as events (not executed)
@@ -121,7 +122,7 @@ func (j *Job) modelBudget(id string) bool {
 		j.mbCount = map[string]int{}
 	}
 	j.mbCount[id]++
-	if j.mbCount[id] > 3 {
+	if j.mbCount[id] > 3+j.mbRefund[id] {
 		return false
 	}
 	// a violation that shows on every template is witnessed on the first sites only (the other
@@ -131,6 +132,22 @@ func (j *Job) modelBudget(id string) bool {
 }
 
 var globalModelBudget sync.Map
+
+// modelRefund: a witness search that produced no natively valid model does not use up the budget
+// (up to 9 extra attempts per obligation and job), so that later instances are still searched.
+func (j *Job) modelRefund(id string) {
+	j.mbMu.Lock()
+	defer j.mbMu.Unlock()
+	if j.mbRefund == nil {
+		j.mbRefund = map[string]int{}
+	}
+	if j.mbRefund[id] < 9 {
+		j.mbRefund[id]++
+		if n, ok := globalModelBudget.Load(id); ok {
+			atomic.AddInt64(n.(*int64), -1)
+		}
+	}
+}
 
 type PathResult struct {
 	Trail       []int
@@ -311,8 +328,60 @@ func (e *Engine) RunJob(job *Job, workers int) *JobResult {
 	}
 	wg.Wait()
 	sort.Slice(jr.Paths, func(i, j int) bool { return trailLess(jr.Paths[i].Trail, jr.Paths[j].Trail) })
+	e.lateWitnesses(jr)
 	jr.Wall = time.Since(t0)
 	return jr
+}
+
+// lateWitnesses: an obligation kind that is violated on some paths but has no natively valid
+// witness yet (the first searches were fruitless and the others were skipped for the budget): search
+// a spread of the skipped instances, one after the other, until one yields a valid model.
+func (e *Engine) lateWitnesses(jr *JobResult) {
+	type ref struct {
+		p  *PathResult
+		oi int
+	}
+	skipped := map[string][]ref{}
+	have := map[string]bool{}
+	for _, p := range jr.Paths {
+		for oi := range p.Obligations {
+			ob := &p.Obligations[oi]
+			if ob.Result != "violated" {
+				continue
+			}
+			if ob.Model != nil && ob.Q == nil {
+				have[ob.ID] = true
+			}
+			if ob.Q != nil {
+				skipped[ob.ID] = append(skipped[ob.ID], ref{p, oi})
+			}
+		}
+	}
+	var solver *Solver
+	for id, refs := range skipped {
+		if have[id] {
+			continue
+		}
+		if solver == nil {
+			solver = acquireSolver()
+			defer releaseSolver(solver)
+		}
+		step := len(refs)/12 + 1
+		for k := 0; k < len(refs); k += step {
+			r := refs[k]
+			ob := &r.p.Obligations[r.oi]
+			if res, mod := checkModelWith(solver, e, r.p.Fresh, r.p.Prefs, ob.Q); res == Sat && mod != nil && modelValid(mod, ob.Q) {
+				ob.Model = mod
+				ob.Details = "witness found in the second pass"
+				break
+			}
+		}
+	}
+	for _, p := range jr.Paths {
+		for oi := range p.Obligations {
+			p.Obligations[oi].Q = nil
+		}
+	}
 }
 
 // Global pool of solver instances: one token per core. Jobs run concurrently and share
